@@ -45,7 +45,7 @@ func genC14(r *rt.Rand, tier string, idx int) *world.Scenario {
 		n := 3 + r.Intn(5)
 		for i := 0; i < n; i++ {
 			// mostly the elector's own sequence (get, then create-if-absent / update), sometimes arbitrary steps
-			switch r.Weighted(40, 15, 35, 10) {
+			switch r.Weighted(38, 14, 33, 9, 6) {
 			case 0:
 				cl.Ops = append(cl.Ops, world.Op{K: "lget", Node: c})
 			case 1:
@@ -55,6 +55,9 @@ func genC14(r *rt.Rand, tier string, idx int) *world.Scenario {
 			case 3:
 				// a renewal whose record is byte for byte the one last read (times have one-second resolution)
 				cl.Ops = append(cl.Ops, world.Op{K: "lsame", Node: c})
+			case 4:
+				// a release: the record is rewritten without a holder (what the elector sends when it gives up)
+				cl.Ops = append(cl.Ops, world.Op{K: "lrelease", Node: c})
 			}
 		}
 		sc.Clients = append(sc.Clients, cl)
@@ -161,9 +164,13 @@ func c14Custom(t *testing.T, sc *world.Scenario, out *Outcome) {
 				}
 				ops = append(ops, op)
 			}
-			doUpdate := func(same bool) {
+			doUpdate := func(same bool, release ...bool) {
 				s.Yield("cand.step")
 				rec := record(c)
+				if len(release) > 0 {
+					rec.HolderIdentity = ""
+					out.probe("release-attempted")
+				}
 				if same {
 					if json.Unmarshal([]byte(lastObserved[c]), &rec) != nil {
 						return
@@ -204,6 +211,10 @@ func c14Custom(t *testing.T, sc *world.Scenario, out *Outcome) {
 				case "lsame":
 					if haveObserved[c] {
 						doUpdate(true)
+					}
+				case "lrelease":
+					if haveObserved[c] {
+						doUpdate(false, true)
 					}
 				}
 			}
